@@ -240,3 +240,215 @@ Proof.
     try (vm_compute in E; discriminate).
   exists r. apply recursive_done_no_upstream. exact E.
 Qed.
+
+(* ====================================================================== *)
+(* 6. an upstream alias chain that leads into a locally authoritative name  *)
+(*    is cut there (fix b2bc3c2; lemmas: Resolver/CutFacts.v)               *)
+(* ====================================================================== *)
+From RV Require Import Wire.WireModel Resolver.ValidateModel Resolver.Universe.
+
+(* cut_at_local_authority, against the specification: it never panics, and
+   - leaves the response as it is when it is a Delegation, or when every record of the Answer / CNAME
+     response is owned by the question name or by a name no authoritative local zone encloses
+     ([in_auth_zone]: the longest configured apex enclosing the name has a SOA);
+   - otherwise makes it the CNAME response holding exactly the records BEFORE the first record [r]
+     whose owner is another name inside an authoritative local zone, to be continued at that owner:
+     the rest of the chain is resolved by the resolver itself -- for an owned name, by the zone
+     (C01_auth_zone_alone_local), without asking upstream (C01_log_names_not_owned_recursive). *)
+Theorem C01_cut_sound : forall zs q nr,
+  exists nr', cut_at_local_authority zs q nr = Ok nr' /\
+    ((nr' = nr /\ ((exists x y, nr = NRDelegation x y)
+                   \/ forall r, In r (nr_rrs nr) -> rr_name r = q_name q \/ ~ in_auth_zone zs (rr_name r)))
+     \/ (exists i r, (forall x y, nr <> NRDelegation x y) /\ nth_error (nr_rrs nr) i = Some r
+           /\ rr_name r <> q_name q /\ in_auth_zone zs (rr_name r)
+           /\ (forall x, In x (firstn i (nr_rrs nr)) -> rr_name x = q_name q \/ ~ in_auth_zone zs (rr_name x))
+           /\ nr' = NRCname (firstn i (nr_rrs nr)) (rr_name r))).
+Proof.
+  intros zs q nr. destruct (cut_ok zs q nr) as (nr' & E & Hs). exists nr'. split; [exact E|].
+  destruct Hs as [H|i r Hnd Hn Ho Hf].
+  - left. split; [reflexivity|]. destruct nr as [rrs s|rrs c|rrs d]; [right|right|left; eauto]; intros r Hr;
+      (destruct (H r Hr) as [(x & y & E')|H1]; [discriminate|apply owned_elsewhere_false_spec, H1]).
+  - right. exists i, r. split; [exact Hnd|]. split; [exact Hn|].
+    destruct (owned_elsewhere_true_spec _ _ _ Ho) as [H1 H2]. split; [exact H1|]. split; [exact H2|].
+    split; [|reflexivity]. intros x Hx. apply owned_elsewhere_false_spec, Hf, Hx.
+Qed.
+Print Assumptions C01_cut_sound.
+
+(* recursive mode, one upstream reply: resolve_with_nameserver_response caches and merges the
+   response AFTER the cut -- so of an Answer / CNAME reply only records owned by the question name
+   or by a name outside every authoritative local zone are cached or returned from that reply; the
+   rest of its chain is the result of the nested resolution that starts at the first owner cut *)
+Theorem C01_upstream_chain_cut_recursive :
+  forall (cache : Type) (cache_insert_all : cache -> list rr -> cache) (zs : zones)
+         (rec : list question -> question -> RM cache rres) stack combined nr q,
+  exists nr', cut_at_local_authority zs q nr = Ok nr'
+    /\ resolve_with_nameserver_response cache cache_insert_all zs rec stack combined nr q
+       = resolve_with_response_match cache cache_insert_all rec stack combined nr' q
+    /\ (exists i, nr_rrs nr' = firstn i (nr_rrs nr))
+    /\ ((exists x y, nr' = NRDelegation x y)
+        \/ forall r, In r (nr_rrs nr') -> rr_name r = q_name q \/ ~ in_auth_zone zs (rr_name r)).
+Proof.
+  intros cache cache_insert_all zs rec stack combined nr q.
+  destruct (rwnr_cut cache cache_insert_all zs rec stack combined nr q) as (nr' & Hs & E & Er).
+  exists nr'. split; [exact E|]. split; [exact Er|]. split; [exact (cut_shape_prefix _ _ _ _ Hs)|].
+  destruct nr' as [rrs s|rrs c|rrs d]; [right|right|left; eauto]; intros r Hr;
+    apply owned_elsewhere_false_spec; eapply (cut_sound zs q nr); try exact E; try exact Hr; discriminate.
+Qed.
+Print Assumptions C01_upstream_chain_cut_recursive.
+
+(* ... and over a WHOLE recursive resolution, on a cache that remembers what was inserted: every
+   argument of insert_all is a prefix of the records of a validated reply to some question q', and
+   unless that reply is a referral (NS records and glue of a delegation; the cache is never read
+   for a name inside an authoritative zone: C01_cache_noninterference_local) none of the records
+   inserted is owned by another name inside an authoritative local zone *)
+Theorem C01_upstream_cached_not_owned_recursive :
+  forall (cache : Type) (cache_get : cache -> dname -> N -> list rr) (cache_insert_all : cache -> list rr -> cache)
+         (sort_names : list dname -> list dname) (zs : zones) (o : oracle) (pmode : protocol_mode) (port : N)
+         fuel q (c : cache) ts,
+  let get' (c : cache * list (list rr)) := cache_get (fst c) in
+  let ins' (c : cache * list (list rr)) rrs := (cache_insert_all (fst c) rrs, snd c ++ [rrs]) in
+  Forall (fun rrs => exists q' resp mc nr i,
+            validate_nameserver_response q' resp mc = Ok (Some nr) /\ rrs = firstn i (nr_rrs nr)
+            /\ ((exists x y, nr = NRDelegation x y)
+                \/ forall r, In r rrs -> rr_name r = q_name q' \/ ~ in_auth_zone zs (rr_name r)))
+         (snd (fst (snd (resolve_recursive (cache * list (list rr)) get' ins' sort_names zs o pmode port fuel q ((c, []), ts))))).
+Proof.
+  intros cache cache_get cache_insert_all sort_names zs o pmode port fuel q c ts get' ins'.
+  apply (recursive_cached_cut (cache * list (list rr)) get' ins' sort_names zs o pmode port
+           (fun c' => Forall (fun rrs => exists q' resp mc nr i,
+                                validate_nameserver_response q' resp mc = Ok (Some nr) /\ rrs = firstn i (nr_rrs nr)
+                                /\ ((exists x y, nr = NRDelegation x y)
+                                    \/ forall r, In r rrs -> rr_name r = q_name q' \/ ~ in_auth_zone zs (rr_name r))) (snd c'))).
+  - intros c' q' resp mc nr i H Hv Hcut. subst ins'. cbn [snd]. apply Forall_app. split; [exact H|].
+    constructor; [|constructor]. exists q', resp, mc, nr, i. split; [exact Hv|]. split; [reflexivity|].
+    destruct Hcut as [Hd|Hn]; [left; exact Hd|right]. intros r Hr. apply owned_elsewhere_false_spec, Hn, Hr.
+  - constructor.
+Qed.
+Print Assumptions C01_upstream_cached_not_owned_recursive.
+
+(* forwarding mode, one reply of the forwarder: either no record of its answer section is owned by
+   another name inside an authoritative local zone, and the section is cached and returned as
+   before; or the records BEFORE the first such record [r] are cached and returned, followed by
+   what the forwarding resolver itself makes of the question for [r]'s owner (question pushed on
+   the stack; an error there is DeadEnd for that question) *)
+Theorem C01_upstream_chain_cut_forwarding :
+  forall (cache : Type) (cache_insert_all : cache -> list rr -> cache) (zs : zones) (o : oracle) (fa : addr)
+         (rec : list question -> question -> RM cache rres) stack combined q st resp ts,
+  query_nameserver o fa q true (snd st) = (Val (Some resp), ts) ->
+  ((forall r, In r (m_answers resp) -> rr_name r = q_name q \/ ~ in_auth_zone zs (rr_name r))
+   /\ forward_query cache cache_insert_all zs o fa rec stack combined q st
+      = (Val (ROk (NonAuthoritative (prioritising_merge combined (m_answers resp)) (get_nxdomain_nodata_soa q resp 0))),
+         (cache_insert_all (fst st) (m_answers resp), ts)))
+  \/ (exists i r, nth_error (m_answers resp) i = Some r /\ rr_name r <> q_name q /\ in_auth_zone zs (rr_name r)
+        /\ (forall x, In x (firstn i (m_answers resp)) -> rr_name x = q_name q \/ ~ in_auth_zone zs (rr_name x))
+        /\ forward_query cache cache_insert_all zs o fa rec stack combined q st
+           = fq_nested cache rec stack combined q (firstn i (m_answers resp)) (rr_name r)
+                       (cache_insert_all (fst st) (firstn i (m_answers resp)), ts)).
+Proof.
+  intros cache cache_insert_all zs o fa rec stack combined q st resp ts Eq.
+  destruct (fq_cases cache cache_insert_all zs o fa rec stack combined q st)
+    as [(resp' & ts' & Eq' & Hn & E)|[(resp' & ts' & i & r & Eq' & Hn & Ho & Hp & E)|[(ts' & Eq' & E)|(w & ts' & Eq' & E)]]];
+    rewrite Eq in Eq'; inversion Eq'; subst.
+  - left. split; [|exact E]. intros r Hr. apply owned_elsewhere_false_spec, Hn, Hr.
+  - right. exists i, r. split; [exact Hn|]. destruct (owned_elsewhere_true_spec _ _ _ Ho) as [H1 H2].
+    split; [exact H1|]. split; [exact H2|]. split; [|exact E]. intros x Hx. apply owned_elsewhere_false_spec, Hp, Hx.
+Qed.
+Print Assumptions C01_upstream_chain_cut_forwarding.
+
+(* ... and over a WHOLE forwarding resolution, on a cache that remembers what was inserted: every
+   argument of insert_all is a prefix of the answer section of a reply the forwarder gave to some
+   question q', holding no record owned by another name inside an authoritative local zone *)
+Theorem C01_upstream_cached_not_owned_forwarding :
+  forall (cache : Type) (cache_get : cache -> dname -> N -> list rr) (cache_insert_all : cache -> list rr -> cache)
+         (zs : zones) (o : oracle) (fa : addr) fuel q (c : cache) ts,
+  let get' (c : cache * list (list rr)) := cache_get (fst c) in
+  let ins' (c : cache * list (list rr)) rrs := (cache_insert_all (fst c) rrs, snd c ++ [rrs]) in
+  Forall (fun rrs => exists q' ts1 resp ts2 i,
+            query_nameserver o fa q' true ts1 = (Val (Some resp), ts2) /\ rrs = firstn i (m_answers resp)
+            /\ forall r, In r rrs -> rr_name r = q_name q' \/ ~ in_auth_zone zs (rr_name r))
+         (snd (fst (snd (resolve_forwarding (cache * list (list rr)) get' ins' zs o fa fuel q ((c, []), ts))))).
+Proof.
+  intros cache cache_get cache_insert_all zs o fa fuel q c ts get' ins'.
+  apply (forwarding_cached_cut (cache * list (list rr)) get' ins' zs o fa
+           (fun c' => Forall (fun rrs => exists q' ts1 resp ts2 i,
+                                query_nameserver o fa q' true ts1 = (Val (Some resp), ts2) /\ rrs = firstn i (m_answers resp)
+                                /\ forall r, In r rrs -> rr_name r = q_name q' \/ ~ in_auth_zone zs (rr_name r)) (snd c'))).
+  - intros c' q' ts1 resp ts2 i H Eq Hn. subst ins'. cbn [snd]. apply Forall_app. split; [exact H|].
+    constructor; [|constructor]. exists q', ts1, resp, ts2, i. split; [exact Eq|]. split; [reflexivity|].
+    intros r Hr. apply owned_elsewhere_false_spec, Hn, Hr.
+  - constructor.
+Qed.
+Print Assumptions C01_upstream_cached_not_owned_forwarding.
+
+(* ---- the old witness of finding upstream-chain-into-owned-name, replayed on the models ----
+   local zones: the root hints (ns. at 10.0.0.1) and the AUTHORITATIVE zone ent.example.com. with
+       a.ent.example.com. A 10.2.2.1
+   upstream (10.0.0.1, also taken as the forwarder) answers portal.example.com. A with
+       portal.example.com. CNAME a.ent.example.com.   a.ent.example.com. A 192.0.4.9
+   Before the fix both modes returned upstream's 192.0.4.9 for the owned name; now the reply is cut
+   after the CNAME, only the CNAME is cached, and the answer ends in the zone's 10.2.2.1 (with the
+   zone's SOA, which the nested authoritative result carries), after ONE upstream exchange. *)
+Definition c01_nm (ls : list label) : dname :=
+  {| labels := ls ++ [[]]; nlen := fold_right (fun l acc => 1 + llen l + acc) 1 ls |}.
+Definition c01_l_example : label := [101; 120; 97; 109; 112; 108; 101].
+Definition c01_l_com : label := [99; 111; 109].
+Definition c01_l_ent : label := [101; 110; 116].
+Definition c01_root := c01_nm [].
+Definition c01_ns := c01_nm [[110; 115]].                                               (* ns. *)
+Definition c01_ent := c01_nm [c01_l_ent; c01_l_example; c01_l_com].                     (* ent.example.com. *)
+Definition c01_a_ent := c01_nm [[97]; c01_l_ent; c01_l_example; c01_l_com].             (* a.ent.example.com. *)
+Definition c01_portal := c01_nm [[112; 111; 114; 116; 97; 108]; c01_l_example; c01_l_com].  (* portal.example.com. *)
+Definition c01_rr (n : dname) (t : N) (d : rdata) : rr :=
+  {| rr_name := n; rr_type := t; rr_class := RC_IN; rr_ttl := 300; rr_data := d |}.
+Definition c01_ip : N := 167772161.                                                     (* 10.0.0.1 *)
+Definition c01_local_ip : N := 167903745.                                               (* 10.2.2.1 *)
+Definition c01_upstream_ip : N := 3221226505.                                           (* 192.0.4.9 *)
+Definition c01_soa : soa :=
+  {| soa_mname := c01_ns; soa_rname := c01_ns; soa_serial := 1; soa_refresh := 60; soa_retry := 60;
+     soa_expire := 60; soa_minimum := 300 |}.
+Definition c01_zones : zones :=
+  match (let* z1 := zone_insert false (zone_new c01_root None) c01_root RT_NS (RD_Name c01_ns) 3600 in
+         let* z2 := zone_insert false z1 c01_ns RT_A (RD_A c01_ip) 3600 in
+         let* e := zone_insert false (zone_new c01_ent (Some c01_soa)) c01_a_ent RT_A (RD_A c01_local_ip) 300 in
+         Ok (zones_insert (zones_insert [] z2) e)) with
+  | Ok zs => zs
+  | _ => []
+  end.
+Definition c01_q (n : dname) : question := {| q_name := n; q_type := RT_A; q_class := RC_IN |}.
+Definition c01_msg (q : question) (an : list rr) : list byte :=
+  match encode (reply_message q {| sr_answers := an; sr_authority := []; sr_additional := []; sr_aa := true;
+                                   sr_rcode := RCODE_NoError |}) with
+  | Ok bs => bs
+  | _ => []
+  end.
+Definition c01_upstream_answer : list rr :=
+  [c01_rr c01_portal RT_CNAME (RD_Name c01_a_ent); c01_rr c01_a_ent RT_A (RD_A c01_upstream_ip)].
+Definition c01_table : table :=
+  [ ((inl c01_ip, c01_q c01_portal), c01_msg (c01_q c01_portal) c01_upstream_answer) ].
+Definition c01_run (mode : resolver_mode) :=
+  resolve_simple mode 53 c01_zones (table_oracle c01_table []) 200%nat (c01_q c01_portal) (sc_empty, tstate_init).
+Definition c01_result : resolved :=
+  NonAuthoritative [c01_rr c01_portal RT_CNAME (RD_Name c01_a_ent); c01_rr c01_a_ent RT_A (RD_A c01_local_ip)]
+                   (Some (soa_to_rr c01_soa c01_ent)).
+
+Example C01_upstream_chain_cut_witness_recursive :
+  fst (c01_run (ModeRecursive OnlyV4)) = Ok c01_result
+  /\ sc_get (fst (snd (c01_run (ModeRecursive OnlyV4)))) c01_a_ent RT_A = []          (* upstream's A record is not cached *)
+  /\ sc_get (fst (snd (c01_run (ModeRecursive OnlyV4)))) c01_portal RT_CNAME
+     = [c01_rr c01_portal RT_CNAME (RD_Name c01_a_ent)]
+  /\ length (ts_rlog (snd (snd (c01_run (ModeRecursive OnlyV4))))) = 1%nat
+  /\ in_auth_zone c01_zones c01_a_ent.
+Proof.
+  repeat split; try (vm_compute; reflexivity).
+  eexists. split; [vm_compute; reflexivity|]. cbn. discriminate.
+Qed.
+Print Assumptions C01_upstream_chain_cut_witness_recursive.
+
+Example C01_upstream_chain_cut_witness_forwarding :
+  fst (c01_run (ModeForwarding (inl c01_ip, 53))) = Ok c01_result
+  /\ sc_get (fst (snd (c01_run (ModeForwarding (inl c01_ip, 53))))) c01_a_ent RT_A = []
+  /\ sc_get (fst (snd (c01_run (ModeForwarding (inl c01_ip, 53))))) c01_portal RT_CNAME
+     = [c01_rr c01_portal RT_CNAME (RD_Name c01_a_ent)]
+  /\ length (ts_rlog (snd (snd (c01_run (ModeForwarding (inl c01_ip, 53)))))) = 1%nat.
+Proof. repeat split; vm_compute; reflexivity. Qed.
+Print Assumptions C01_upstream_chain_cut_witness_forwarding.
